@@ -216,3 +216,33 @@ JOBS['C06'] = [
      'defs': {'quick': {'NL': 3}, 'thorough': {'NL': 4}},
      'expect_reach': ['end', 'applied', 'rejected'], 'timeout': {'quick': 280, 'thorough': 1700}},
 ]
+
+# ---------------------------------------------------------------- C17 / C18
+_ren_units = ['ren', 'uc', 'dir', 'rset', 'regex', 'sbuf', 'conf']
+META['C17'] = {
+    'bounds': {'quick': 'all lines of <=3 characters (order 0) or <=2 characters (order 1, 2 x td -2..2 x lim 1/256) over {printable ASCII, TAB, double-width, zero-width, ZWNJ placeholder, Arabic letter, 4-byte} + newline (tiling, round trip, neighbours, cursor clamping); width class of every code point U+0001..U+10FFFF against a linear scan of the tables',
+               'thorough': 'lines of <=4 (order 0) / <=3 (reordering) characters'},
+    'outside': 'lines longer than the bound; the h l | commands of the real binary (C07 jobs)',
+    'assumptions': ['class widths: TAB to the next multiple of 8, U+4E2D two cells, every other listed character one cell (zero-width characters are drawn as one-cell placeholders)'],
+}
+JOBS['C17'] = [
+    {'name': 'layout', 'harness': 'c17_ren.c', 'units': _ren_units, 'defs': {'quick': {'LL': 3, 'ORDER': 0}, 'thorough': {'LL': 4, 'ORDER': 0}},
+     'expect_reach': ['end'], 'timeout': {'quick': 280, 'thorough': 1700}},
+    {'name': 'layout_reorder', 'harness': 'c17_ren.c', 'units': _ren_units, 'defs': {'quick': {'LL': 2}, 'thorough': {'LL': 3}},
+     'variants': [{'ORDER': 1}, {'ORDER': 2}], 'expect_reach': ['end', 'reorder-path'], 'timeout': {'quick': 280, 'thorough': 1700}},
+    {'name': 'width_tables', 'harness': 'c17_tab.c', 'units': [], 'defs': {}, 'expect_reach': ['end'], 'timeout': {'quick': 280, 'thorough': 1700}},
+]
+META['C18'] = {
+    'bounds': {'quick': 'all lines of <=4 characters over {Latin, digit, blank, -, Arabic BEH, Arabic ALEF, ZWNJ} (and, permutation only, with the mark characters $ \\\\ { } [ ] *) x td -2..2: permutation, newline last, runs reversed in place; shaping: previous/current/next over the whole joining-letter table or a non-letter or nothing, 0..2 diacritics on either side',
+               'thorough': 'lines of <=5 characters'},
+    'outside': 'longer lines; the exact effect of the configured mark patterns (only the permutation property is asserted for lines containing mark characters)',
+    'assumptions': ['base direction: option td beyond +-1, else the first character, else the sign of td'],
+}
+JOBS['C18'] = [
+    {'name': 'reorder', 'harness': 'c18_dir.c', 'units': _ren_units, 'defs': {'quick': {'LL': 4}, 'thorough': {'LL': 5}},
+     'expect_reach': ['end', 'reversed'], 'timeout': {'quick': 280, 'thorough': 1700}},
+    {'name': 'reorder_marks', 'harness': 'c18_dir.c', 'units': _ren_units, 'defs': {'quick': {'LL': 4, 'MARKS': 1}, 'thorough': {'LL': 5, 'MARKS': 1}},
+     'expect_reach': ['end', 'marks'], 'timeout': {'quick': 280, 'thorough': 1700}},
+    {'name': 'shaping', 'harness': 'c18_shape.c', 'units': [], 'defs': {},
+     'expect_reach': ['end', 'medial', 'final', 'initial', 'isolated', 'nonletter'], 'timeout': {'quick': 280, 'thorough': 1700}},
+]
